@@ -25,8 +25,12 @@ type C18Write struct {
 
 type C18Case struct {
 	// configuration
-	DenyPhase  int    `json:"deny_phase"` // 0: no deny rule
-	DenyStatus int    `json:"deny_status"`
+	DenyPhase  int `json:"deny_phase"` // 0: no deny rule
+	DenyStatus int `json:"deny_status"`
+	// Disr: the disruptive action of the blocking rule: "" / deny | redirect | drop
+	Disr string `json:"disruptive,omitempty"`
+	// Info103: the handler sends an informational 103 response before its final status (real server only)
+	Info103    bool   `json:"info_103,omitempty"`
 	ReqAccess  bool   `json:"req_body_access"`
 	RespAccess bool   `json:"resp_body_access"`
 	ReqLimit   int    `json:"req_limit"`
@@ -52,6 +56,14 @@ func genC18(t *rapid.T) *C18Case {
 	c := &C18Case{}
 	c.DenyPhase = rapid.IntRange(0, 4).Draw(t, "denyphase")
 	c.DenyStatus = rapid.SampledFrom([]int{0, 403, 401, 500, 451}).Draw(t, "denystatus")
+	switch rapid.IntRange(0, 5).Draw(t, "disr") {
+	case 0:
+		c.Disr = "redirect"
+		c.DenyStatus = rapid.SampledFrom([]int{0, 301, 307, 403}).Draw(t, "redirstatus")
+	case 1:
+		c.Disr = "drop"
+		c.DenyStatus = 0
+	}
 	c.ReqAccess = rapid.Bool().Draw(t, "reqaccess")
 	c.RespAccess = rapid.Bool().Draw(t, "respaccess")
 	c.ReqLimit = rapid.IntRange(4, 40).Draw(t, "reqlimit")
@@ -88,6 +100,9 @@ func genC18(t *rapid.T) *C18Case {
 			c.Writes = append(c.Writes, C18Write{Kind: "write", N: 0})
 		}
 	}
+	if rapid.IntRange(0, 9).Draw(t, "info103") == 0 {
+		c.Info103, c.UseServer = true, true // interim responses exist only on a real connection
+	}
 	for _, wr := range c.Writes {
 		if wr.Kind == "readfromfile" && rapid.Bool().Draw(t, "serverforfile") {
 			c.UseServer = true // net/http's own ReadFrom (sendfile) path exists only on a real connection
@@ -115,7 +130,14 @@ func (c *C18Case) conf() string {
 		if c.DenyStatus != 0 {
 			st = fmt.Sprintf(",status:%d", c.DenyStatus)
 		}
-		fmt.Fprintf(&sb, "SecRule REQUEST_HEADERS:X-Block \"@streq 1\" \"id:1,phase:%d,deny%s\"\n", c.DenyPhase, st)
+		disr := "deny"
+		switch c.Disr {
+		case "redirect":
+			disr = "redirect:http://r.example/blocked"
+		case "drop":
+			disr = "drop"
+		}
+		fmt.Fprintf(&sb, "SecRule REQUEST_HEADERS:X-Block \"@streq 1\" \"id:1,phase:%d,%s%s\"\n", c.DenyPhase, disr, st)
 	}
 	return sb.String()
 }
@@ -160,6 +182,9 @@ func (c *C18Case) run() (*c18Result, *Failure) {
 		}
 		if c.ExtraHdr != "" {
 			rw.Header().Set("X-Extra", c.ExtraHdr)
+		}
+		if c.Info103 {
+			rw.WriteHeader(http.StatusEarlyHints)
 		}
 		if c.Code != 0 {
 			rw.WriteHeader(c.Code)
@@ -258,7 +283,8 @@ var c18Handler atomic.Pointer[http.Handler]
 
 // connections are kept alive and reused (a connection per request would leave tens of thousands of sockets in
 // TIME_WAIT during long runs); net/http hands a connection back only after the response has been read completely
-var c18Client = &http.Client{Transport: &http.Transport{MaxIdleConnsPerHost: 2}}
+var c18Client = &http.Client{Transport: &http.Transport{MaxIdleConnsPerHost: 2},
+	CheckRedirect: func(*http.Request, []*http.Request) error { return http.ErrUseLastResponse }} // a redirect is an answer, not an instruction to the test client
 
 func c18SharedServer() *httptest.Server {
 	c18Once.Do(func() {
@@ -288,6 +314,22 @@ func checkC18(c *C18Case) Result {
 	if denyStatus == 0 {
 		denyStatus = 403
 	}
+	switch c.Disr {
+	case "redirect":
+		// the interruption of a redirect carries 302 unless the rule names another redirection status
+		denyStatus = 302
+		if c.DenyStatus == 301 || c.DenyStatus == 307 {
+			denyStatus = c.DenyStatus
+		}
+	case "drop":
+		denyStatus = -1 // no particular status (the connection is to be dropped): anything but a success
+	}
+	statusOK := func(got, want int) bool {
+		if want == -1 {
+			return got/100 != 2
+		}
+		return got == want
+	}
 	block := c.Block && c.DenyPhase > 0
 	// ---- request phases
 	reqBlocked, reqStatus := false, 0
@@ -304,9 +346,16 @@ func checkC18(c *C18Case) Result {
 			out.Fail = failf("the request is interrupted in a request phase but the wrapped handler was invoked%s", ctx)
 			return out
 		}
-		if r.status != reqStatus {
-			out.Fail = failf("request-phase interruption: client status %d, expected %d%s", r.status, reqStatus, ctx)
+		if !statusOK(r.status, reqStatus) {
+			out.Fail = failf("request-phase interruption: client status %d, expected %d (-1: anything but 2xx)%s", r.status, reqStatus, ctx)
 			return out
+		}
+		if c.Disr == "redirect" && reqStatus != 413 && r.header.Get("Location") != "http://r.example/blocked" {
+			out.Fail = failf("request-phase redirect: Location header %q, expected the rule's target%s", r.header.Get("Location"), ctx)
+			return out
+		}
+		if c.Disr != "" && reqStatus != 413 {
+			out.Labels = append(out.Labels, "blocked-by-"+c.Disr)
 		}
 		if len(r.body) != 0 {
 			out.Fail = failf("request-phase interruption: the client received %d body bytes%s", len(r.body), ctx)
@@ -359,9 +408,16 @@ func checkC18(c *C18Case) Result {
 			out.Fail = failf("the response is interrupted in a response phase but %d bytes of the handler's body reached the client%s", len(r.body), ctx)
 			return out
 		}
-		if r.status != respStatus {
-			out.Fail = failf("response-phase interruption: client status %d, expected %d%s", r.status, respStatus, ctx)
+		if !statusOK(r.status, respStatus) {
+			out.Fail = failf("response-phase interruption: client status %d, expected %d (-1: anything but 2xx)%s", r.status, respStatus, ctx)
 			return out
+		}
+		if c.Disr == "redirect" && respStatus != 500 && r.header.Get("Location") != "http://r.example/blocked" {
+			out.Fail = failf("response-phase redirect: Location header %q, expected the rule's target%s", r.header.Get("Location"), ctx)
+			return out
+		}
+		if c.Disr != "" && respStatus != 500 {
+			out.Labels = append(out.Labels, "blocked-late-by-"+c.Disr)
 		}
 		out.Labels = append(out.Labels, fmt.Sprintf("blocked-late"))
 		out.NonTrivial = true
@@ -424,6 +480,9 @@ func checkC18(c *C18Case) Result {
 			out.Labels = append(out.Labels, "file-reader-on-real-server")
 			break
 		}
+	}
+	if c.Info103 {
+		out.Labels = append(out.Labels, "informational-response-first")
 	}
 	if c.Code == 204 || c.Code == 304 {
 		out.Labels = append(out.Labels, "no-body-status")
